@@ -146,3 +146,24 @@ class _Meta(type):
 
 class WithMeta(metaclass=_Meta):
     pass
+
+
+@functools.lru_cache(maxsize=None)
+def cached_func(x=None):
+    return x
+
+
+class _ClassDeco:
+    """A class-based decorator that uses functools.update_wrapper (the module attribute is an instance, not a function)."""
+
+    def __init__(self, f):
+        functools.update_wrapper(self, f)
+        self.f = f
+
+    def __call__(self, *a, **kw):
+        return self.f(*a, **kw)
+
+
+@_ClassDeco
+def class_decorated(x=None):
+    return x
